@@ -279,6 +279,9 @@ pub struct FakeIrrd {
     pub addr: SocketAddr,
     /// (connection number, query) in arrival order
     pub log: Arc<Mutex<Vec<(usize, String)>>>,
+    /// the database (and "ok" | "close") served to connections accepted from now on: a daemon-mode scenario
+    /// swaps it between the runs of one agent process
+    pub live: Arc<Mutex<(IrrDb, String)>>,
 }
 
 /// `mode`: "ok" | "refuse" (listener closed at once) | "close" (accept, then close before any answer)
@@ -286,22 +289,24 @@ pub fn start_irrd(db: IrrDb, mode: &str) -> FakeIrrd {
     let listener = StdListener::bind(("127.0.0.1", 0)).expect("bind irrd");
     let addr = listener.local_addr().unwrap();
     let log: Arc<Mutex<Vec<(usize, String)>>> = Arc::new(Mutex::new(Vec::new()));
+    let live = Arc::new(Mutex::new((db, mode.to_string())));
     if mode == "refuse" {
         drop(listener);
-        return FakeIrrd { addr, log };
+        return FakeIrrd { addr, log, live };
     }
     let log2 = log.clone();
-    let mode = mode.to_string();
+    let live2 = live.clone();
     std::thread::spawn(move || {
         let mut nconn = 0usize;
         for stream in listener.incoming() {
             let Ok(stream) = stream else { continue };
             nconn += 1;
-            if mode == "close" {
+            let (db, mode) = live2.lock().unwrap().clone();
+            if mode == "close" || mode == "refuse" {
                 drop(stream);
                 continue;
             }
-            let (db, log, n) = (db.clone(), log2.clone(), nconn);
+            let (db, log, n) = (db, log2.clone(), nconn);
             std::thread::spawn(move || {
                 let _ = stream.set_nodelay(true);
                 let mut w = stream.try_clone().expect("clone");
@@ -323,7 +328,7 @@ pub fn start_irrd(db: IrrDb, mode: &str) -> FakeIrrd {
             });
         }
     });
-    FakeIrrd { addr, log }
+    FakeIrrd { addr, log, live }
 }
 
 // =============================================================================================
@@ -958,6 +963,11 @@ pub struct JunosState {
     pub eph: Eph,
     pub log: Vec<Value>,
     pub sessions: usize,
+    /// what the router does to the requests of sessions accepted from now on (a daemon-mode scenario changes it
+    /// between the runs of one agent process)
+    pub faults: Vec<Fault>,
+    /// the router is unreachable: connections are dropped as soon as they are accepted
+    pub refuse: bool,
 }
 
 pub struct FakeJunos {
@@ -1153,14 +1163,26 @@ pub async fn start_junos(
 ) -> FakeJunos {
     let listener = TcpListener::bind(("127.0.0.1", 0)).await.unwrap();
     let addr = listener.local_addr().unwrap();
-    let state = Arc::new(Mutex::new(JunosState { running, eph, log: Vec::new(), sessions: 0 }));
+    let state = Arc::new(Mutex::new(JunosState { running, eph, log: Vec::new(), sessions: 0, faults, refuse: false }));
     let st = state.clone();
-    let (faults2, case2) = (faults.clone(), case.clone());
+    let case2 = case.clone();
     drop(tokio::spawn(async move {
         loop {
             let Ok((tcp, _)) = listener.accept().await else { break };
             let _ = tcp.set_nodelay(true);
-            let (st, faults, acceptor, case) = (st.clone(), faults.clone(), acceptor.clone(), case.clone());
+            let (faults, refuse) = {
+                let g = st.lock().unwrap();
+                (g.faults.clone(), g.refuse)
+            };
+            if refuse {
+                let mut g = st.lock().unwrap();
+                g.sessions += 1;
+                let (n, sess) = (g.log.len() + 1, g.sessions);
+                g.log.push(json!({"ev": "session_end", "committed": false, "refused": true, "case": case, "session": sess, "seq": n}));
+                drop(tcp);
+                continue;
+            }
+            let (st, acceptor, case) = (st.clone(), acceptor.clone(), case.clone());
             drop(tokio::spawn(async move {
                 let Ok(stream) = acceptor.accept(tcp).await else { return };
                 serve_session(stream, st, faults, case, style).await;
@@ -1169,12 +1191,13 @@ pub async fn start_junos(
     }));
     let plain = TcpListener::bind(("127.0.0.1", 0)).await.unwrap();
     let plain_addr = plain.local_addr().unwrap();
-    let (st, faults, case) = (state.clone(), faults2, case2);
+    let (st, case) = (state.clone(), case2);
     drop(tokio::spawn(async move {
         loop {
             let Ok((tcp, _)) = plain.accept().await else { break };
             let _ = tcp.set_nodelay(true);
-            let (st, faults, case) = (st.clone(), faults.clone(), case.clone());
+            let faults = st.lock().unwrap().faults.clone();
+            let (st, case) = (st.clone(), case.clone());
             drop(tokio::spawn(async move {
                 serve_session(tcp, st, faults, case, style).await;
             }));
@@ -1215,6 +1238,7 @@ async fn serve_session<S: tokio::io::AsyncRead + tokio::io::AsyncWrite + Unpin>(
         4000 + sess as u32,
     );
     if stream.write_all(hello.as_bytes()).await.is_err() {
+        log(&st, json!({"ev": "session_end", "committed": false, "cut": true}));
         return;
     }
     let _ = stream.flush().await;
@@ -1386,6 +1410,7 @@ async fn serve_session<S: tokio::io::AsyncRead + tokio::io::AsyncWrite + Unpin>(
         if let Some(how) = fk.strip_prefix("mut:") {
             let raw = mutate_reply(&ok_reply, how);
             if stream.write_all(&raw).await.is_err() {
+                log(&st, json!({"ev": "session_end", "committed": false, "cut": true}));
                 return;
             }
             let _ = stream.flush().await;
@@ -1407,6 +1432,7 @@ async fn serve_session<S: tokio::io::AsyncRead + tokio::io::AsyncWrite + Unpin>(
             "close-before" => {
                 log(&st, json!({"ev": "srv_close", "when": "before-reply", "kind": kind}));
                 let _ = stream.shutdown().await;
+                log(&st, json!({"ev": "session_end", "committed": false, "cut": true}));
                 return;
             }
             "close-after" => vec![ok_reply],
@@ -1422,6 +1448,7 @@ async fn serve_session<S: tokio::io::AsyncRead + tokio::io::AsyncWrite + Unpin>(
         };
         for r in released {
             if stream.write_all(r.as_bytes()).await.is_err() {
+                log(&st, json!({"ev": "session_end", "committed": false, "cut": true}));
                 return;
             }
             let _ = stream.flush().await;
@@ -1429,6 +1456,7 @@ async fn serve_session<S: tokio::io::AsyncRead + tokio::io::AsyncWrite + Unpin>(
         if fk == "close-after" {
             log(&st, json!({"ev": "srv_close", "when": "after-reply", "kind": kind}));
             let _ = stream.shutdown().await;
+            log(&st, json!({"ev": "session_end", "committed": false, "cut": true}));
             return;
         }
         if kind == "close-session" {
